@@ -50,6 +50,8 @@ type lossyChain struct {
 	// callGate, when set, holds the answer of the next pending-state call back until it is closed
 	callGate chan struct{}
 	mu       sync.Mutex
+	// loseAnswer: the next submitted transaction reaches the node, its acknowledgement does not reach the pool
+	loseAnswer bool
 }
 
 func (b *lossyChain) gate(which string) chan struct{} {
@@ -77,6 +79,19 @@ func (b *lossyChain) setGate(which string, g chan struct{}) {
 	default:
 		b.callGate = g
 	}
+}
+
+// SendTransaction passes the transaction on; when armed, the node gets it but the answer never reaches the caller.
+func (b *lossyChain) SendTransaction(ctx context.Context, tx *types.Transaction) error {
+	err := b.SimulatedBackend.SendTransaction(ctx, tx)
+	b.mu.Lock()
+	lose := b.loseAnswer
+	b.loseAnswer = false
+	b.mu.Unlock()
+	if err == nil && lose {
+		return errors.New("read tcp 10.0.0.5:51234->10.0.0.9:8546: read: connection reset by peer")
+	}
+	return err
 }
 
 func (b *lossyChain) PendingCallContract(ctx context.Context, call ethereum.CallMsg) ([]byte, error) {
@@ -343,9 +358,9 @@ func runC07Contract(s *kernel.Sim) {
 			settle()
 			s.Event("#%d the event subscription loses its connection (new one in %d operations)", i, resubOpensAt-i)
 		}
-		op := s.Choose("op", 19)
-		if op == 18 {
-			op = 16
+		op := s.Choose("op", 20)
+		if op >= 18 {
+			op = op - 2 // 16: pending transactions dropped, 17: acknowledgement lost
 		} else if op >= 14 {
 			op = 12 + (op-14)/2 // slow answers and delayed events are what this world is about
 		}
@@ -458,6 +473,15 @@ func runC07Contract(s *kernel.Sim) {
 			deposited[w].Add(deposited[w], new(big.Int).Mul(unit, big.NewInt(u)))
 			pendingDeposit[w].Add(pendingDeposit[w], new(big.Int).Mul(unit, big.NewInt(u)))
 			s.Event("#%d deposit(W%d, %d units)", i, w, u)
+		case op == 17: // the acknowledgement of the next submitted transaction is lost on the way back (the node has the transaction)
+			backend.mu.Lock()
+			backend.loseAnswer = true
+			backend.mu.Unlock()
+			s.Fault("transaction_submitted_acknowledgement_lost")
+			withdraw(i, w, false)
+			backend.mu.Lock()
+			backend.loseAnswer = false
+			backend.mu.Unlock()
 		case op == 16: // the node forgets what it had not mined yet (restart, eviction from its transaction pool)
 			backend.Rollback()
 			for k := 1; k <= 2; k++ {
